@@ -265,6 +265,9 @@ func checkC07Precedence(p *Prog, r *Report, ru *Rule) {
 			if al, ok := addr.(*ssa.Alloc); ok {
 				return fmt.Sprintf("local@%p", al)
 			}
+			if g, ok := addr.(*ssa.Global); ok && p.sentinelError(g) {
+				return "sentinel" /* var ErrX = errors.New(…), never reassigned */
+			}
 			return ""
 		},
 		Param: func(v ssa.Value) AV { return avNonNil },
@@ -357,7 +360,7 @@ func checkC07Precedence(p *Prog, r *Report, ru *Rule) {
 		if cur.idnaErr && !cur.host {
 			continue /* An empty Host converts without error. */
 		}
-		mem := map[string]AV{"sni": str(cur.sni, "SNI"), "rawhost": str(cur.host, "RAWHOST"), "tls": avNonNil}
+		mem := map[string]AV{"sni": str(cur.sni, "SNI"), "rawhost": str(cur.host, "RAWHOST"), "tls": avNonNil, "sentinel": avNonNil}
 		var want string
 		switch {
 		case cur.pfErr:
